@@ -26,10 +26,7 @@ def run(ctx):
     # provenance of the pool object (tags recorded by connection_from_host model)
     seen = set()
     for s in pcs:
-        pool_av = None
-        for k, v in s.st.env.items():
-            if k.endswith(":conn"):
-                pool_av = v
+        pool_av = s.args.get("__recv")
         tags = tuple(sorted(pool_av.tags)) if pool_av is not None else ()
         if tags in seen:
             continue
@@ -40,7 +37,13 @@ def run(ctx):
     txt = astq.text(mfi.node)
     ctx.ob(R1, mfi.qual, "the URL is parsed once per hop: u = parse_url(url)", txt.count("parse_url(url)") == 1)
     cfh = m.func(f"{PM}.PoolManager.connection_from_host")
-    ok = "if not port:\n        port = port_by_scheme.get(request_context['scheme'].lower(), 80)" in astq.text(cfh.node).replace('"', "'")
+    ok = False
+    for n_ in astq.walk_fn(cfh.node):
+        if isinstance(n_, ast.If) and astq.text(n_.test) == "not port":
+            for a_ in n_.body:
+                if isinstance(a_, ast.Assign) and astq.text(a_.targets[0]) == "port":
+                    t_ = astq.itext(cfh.node, a_.value).replace('"', "'")
+                    ok = t_.startswith("port_by_scheme.get(") and "['scheme'].lower()" in t_
     ctx.ob(R1, cfh.qual, "absent port defaults from port_by_scheme of the (lower-cased) scheme", ok)
     ctx.ob(R1, cfh.qual, "a missing host is refused", "if not host:\n        raise LocationValueError(" in astq.text(cfh.node))
     pbs = fold.need(CN, "port_by_scheme")
@@ -69,7 +72,7 @@ def run(ctx):
         raise AnalysisError("Url.request_uri not found")
     reads = astq.attrs_read(ru.node)
     ctx.ob(R2, ru.qual, f"request_uri reads {sorted(reads)}", reads <= {"path", "query"} and "path" in reads, "" if reads <= {"path", "query"} else "the origin-form target includes more than path and query")
-    ok = "uri = self.path or '/'" in astq.text(ru.node).replace('"', "'")
+    ok = any(isinstance(n_, ast.Assign) and astq.text(n_.value).replace('"', "'") == "self.path or '/'" for n_ in astq.walk_fn(ru.node))
     ctx.ob(R2, ru.qual, "an empty path becomes '/'", ok)
     prule, pfi, pouts = resend.analyse(ctx, "pool")
     reqs = [s for s in prule.sites if s.kind == "request"]
@@ -100,7 +103,7 @@ def run(ctx):
                "" if not leak else f"the absolute-form target is Url.{attr}, which includes {leak}: via a forwarding proxy the request line carries user:password@ and #fragment", witness=s.st.witness(), node=s.node)
     et = m.func(f"{URL}._encode_target")
     tr = fold.need(URL, "_TARGET_RE")
-    ctx.ob(R2, et.qual, "_encode_target keeps path and query only (fragment not captured)", "(?:#.*)?" in tr.pattern and astq.text(et.node).count("match.groups()") == 1)
+    ctx.ob(R2, et.qual, "_encode_target keeps path and query only (fragment not captured)", "(?:#.*)?" in tr.pattern and astq.text(et.node).count(".groups()") == 1)
 
     # ------------------------------------------------------------------ R3 dial vs name
     R3 = ctx.rule("C15-R3", "the address dialled is the URL's host as written (trailing dot kept for DNS), while Host and SNI use the host with the trailing dot removed; the host property depends only on that one field", "E6")
@@ -115,21 +118,28 @@ def run(ctx):
     ok = hs is not None and "self._dns_host = value" in astq.text(hs.node)
     ctx.ob(R3, f"{CN}.HTTPConnection.host", "assigning host stores the dialled name unchanged", ok)
     sc_ = m.method(f"{CN}.HTTPSConnection", "connect")
-    ok = "server_hostname: str = self.host" in astq.text(sc_.node) and "server_hostname_rm_dot = server_hostname.rstrip('.')" in astq.text(sc_.node).replace('"', "'")
-    ctx.ob(R3, sc_.qual, "SNI starts from the host property and is dot-stripped", ok)
+    wrapc = [c for c in astq.calls(sc_.node) if astq.call_text(c) == "_ssl_wrap_socket_and_match_hostname"]
+    shv = astq.kwarg(wrapc[0], "server_hostname") if wrapc else None
+    srcs_ = astq.sources_of(sc_.node, shv) if shv is not None else []
+    stripped = [x for x in srcs_ if isinstance(x, ast.Call) and isinstance(x.func, ast.Attribute) and x.func.attr == "rstrip" and astq.text(x.args[0]).replace('"', "'") == "'.'"]
+    from_host = stripped and any(astq.text(y) == "self.host" for y in astq.sources_of(sc_.node, stripped[0].func.value))
+    ctx.ob(R3, sc_.qual, "SNI starts from the host property and is dot-stripped", bool(stripped) and bool(from_host) and len(srcs_) == 1)
 
     # ------------------------------------------------------------------ R4 SNI normalisation
     R4 = ctx.rule("C15-R4", "the TLS server name loses brackets and zone id only when the remainder is an IP literal", "E5")
     wf = m.func(f"{CN}._ssl_wrap_socket_and_match_hostname")
     stores = [n for n in astq.walk_fn(wf.node) if isinstance(n, ast.Assign) and astq.text(n.targets[0]) == "server_hostname"]
     ctx.sites(R4, len(stores), 1, "re-definitions of server_hostname")
+    norm_names = set(astq.assigned_from(wf.node, lambda v: astq.text(v).replace('"', "'") == "server_hostname.strip('[]')"))
     for n in stores:
         g = astq.enclosing(n, ast.If)
-        ok = g is not None and astq.text(g.test) == "is_ipaddress(normalized)" and astq.text(n.value) == "normalized"
-        ctx.ob(R4, wf.qual, f"`{astq.text(n)}` only under `{astq.text(g.test) if g is not None else ''}`", ok, node=n)
-    txt = astq.text(wf.node).replace('"', "'")
-    ok = "normalized = server_hostname.strip('[]')" in txt and "if '%' in normalized:\n            normalized = normalized[:normalized.rfind('%')]" in txt
-    ctx.ob(R4, wf.qual, "normalisation = strip brackets, cut the zone id", ok)
+        ok = g is not None and isinstance(g.test, ast.Call) and astq.call_text(g.test) == "is_ipaddress" and astq.text(g.test.args[0]) in norm_names and astq.text(n.value) in norm_names
+        ctx.ob(R4, wf.qual, "server_hostname is replaced by its normalised form only under is_ipaddress(normalised)", ok, node=n)
+    cut = False
+    for n in astq.walk_fn(wf.node):
+        if isinstance(n, ast.If) and isinstance(n.test, ast.Compare) and astq.text(n.test.left).replace('"', "'") == "'%'" and astq.text(n.test.comparators[0]) in norm_names:
+            cut = any(isinstance(x, ast.Assign) and astq.text(x.targets[0]) in norm_names and ".rfind('%')" in astq.text(x.value).replace('"', "'") for x in n.body)
+    ctx.ob(R4, wf.qual, "normalisation = strip brackets, cut the zone id", bool(norm_names) and cut)
     call = [c for c in astq.calls(wf.node) if astq.call_text(c) == "ssl_wrap_socket"]
     ok = bool(call) and astq.text(astq.kwarg(call[0], "server_hostname")) == "server_hostname"
     ctx.ob(R4, wf.qual, "that name is the one handed to the TLS layer", ok)
@@ -149,9 +159,11 @@ def run(ctx):
     R6 = ctx.rule("C15-R6", "URLs differing only in scheme/host case or an explicit default port reach the same pool: scheme and host are lower-cased by the parser and by the key normaliser; the default port is filled in before keying", "E6")
     norm = m.func(f"{PM}._default_key_normalizer")
     t3 = astq.text(norm.node).replace('"', "'")
-    ctx.ob(R6, norm.qual, "key normaliser lower-cases scheme and host", "context['scheme'] = context['scheme'].lower()" in t3 and "context['host'] = context['host'].lower()" in t3)
+    cl_ = (astq.assigned_from(norm.node, lambda v: isinstance(v, ast.Call) and isinstance(v.func, ast.Attribute) and v.func.attr == "copy") or ["context"])[0]
+    ctx.ob(R6, norm.qual, "key normaliser lower-cases scheme and host", f"{cl_}['scheme'] = {cl_}['scheme'].lower()" in t3 and f"{cl_}['host'] = {cl_}['host'].lower()" in t3)
     # port filled in before the context is keyed
     lines = [(n.lineno, astq.text(n)) for n in astq.walk_fn(cfh.node) if isinstance(n, (ast.Assign, ast.Return))]
-    port_set = [ln for ln, t_ in lines if t_.replace('"', "'").startswith("request_context['port'] = port")]
-    keyed = [ln for ln, t_ in lines if "self.connection_from_context(request_context)" in t_]
+    rcn = (astq.assigned_from(cfh.node, lambda v: isinstance(v, ast.Call) and astq.call_text(v) == "self._merge_pool_kwargs") or ["request_context"])[0]
+    port_set = [ln for ln, t_ in lines if t_.replace('"', "'").startswith(f"{rcn}['port'] = port")]
+    keyed = [ln for ln, t_ in lines if f"self.connection_from_context({rcn})" in t_]
     ctx.ob(R6, cfh.qual, "the (defaulted) port is stored in the context before it is keyed", bool(port_set) and bool(keyed) and port_set[0] < keyed[0])
